@@ -283,8 +283,10 @@ void TraceRecorder::saveLog(const char *logFile, const char *processName)
     ++nextTid;
   }
   // We need to remove the last , we output to ensure the JSON array is correct
-  // Overwrite it with the ] character.
-  fout.seekp(-1, std::ios::cur);
+  // Overwrite it with the ] character. (If nothing was written there is no
+  // comma, and stepping back would overwrite the opening bracket.)
+  if (processName || !threadTrace.empty())
+    fout.seekp(-1, std::ios::cur);
   fout << "]";
 }
 
